@@ -3,6 +3,7 @@ package main
 import (
 	"fmt"
 	"go/constant"
+	"go/types"
 	"sort"
 	"strings"
 
@@ -37,8 +38,9 @@ func floatAtoms(p *Path) []floatAtom {
 			continue
 		}
 		if x.Type != nil {
-			if b, ok := x.Type.Underlying().(interface{ Info() int }); ok {
-				_ = b
+			// only comparisons of a floating-point quantity (the shaped deflection), not e.g. `absInfo.Minimum < 0`
+			if b, ok := x.Type.Underlying().(*types.Basic); ok && b.Info()&types.IsFloat == 0 {
+				continue
 			}
 		}
 		f, _ := constant.Float64Val(constant.ToFloat(v))
